@@ -26,6 +26,7 @@ import (
 	"io"
 	"sort"
 	"sync"
+	"sync/atomic"
 	"time"
 
 	"github.com/buildbarn/bb-remote-execution/pkg/filesystem/pool"
@@ -99,7 +100,9 @@ func (c *Clock) Advance(d time.Duration) {
 func (c *Clock) NewContextWithTimeout(p context.Context, d time.Duration) (context.Context, context.CancelFunc) {
 	return context.WithCancel(p)
 }
-func (c *Clock) NewTimer(d time.Duration) (clock.Timer, <-chan time.Time) { panic("nfsx.Clock.NewTimer") }
+func (c *Clock) NewTimer(d time.Duration) (clock.Timer, <-chan time.Time) {
+	panic("nfsx.Clock.NewTimer")
+}
 func (c *Clock) NewTicker(d time.Duration) (clock.Ticker, <-chan time.Time) {
 	panic("nfsx.Clock.NewTicker")
 }
@@ -120,7 +123,7 @@ func (f *memFile) ReadAt(p []byte, off int64) (int, error) {
 	}
 	return copy(p, f.data[off:]), nil
 }
-func (f *memFile) Sync() error { return nil }
+func (f *memFile) Sync() error         { return nil }
 func (f *memFile) Len() (int64, error) { return int64(len(f.data)), nil }
 func (f *memFile) Truncate(n int64) error {
 	if int(n) < len(f.data) {
@@ -180,7 +183,15 @@ type Gate struct {
 	entered chan struct{}
 	release chan struct{}
 	once    sync.Once
+	fail    atomic.Bool
 }
+
+// Fail makes the call that matches the gate return an I/O error
+// (virtual.StatusErrIO) once it is released, without reaching the real file.
+// Only for the kinds "read", "write" and "setattr"; call it before Release. A
+// gate that is failed and released before any call arrives does not park: the
+// next matching call fails immediately.
+func (g *Gate) Fail() { g.fail.Store(true) }
 
 // Entered reports whether a call is (or was) parked at the gate.
 func (g *Gate) Entered() bool {
@@ -276,14 +287,20 @@ func (w *World) ReleaseAll() {
 }
 
 // event logs e and, if a gate matches, parks the caller (no lock held).
-func (w *World) event(e Event) {
+func (w *World) event(e Event) { w.eventF(e, true) }
+
+// eventF is event; it reports whether the matching gate asks the call to fail
+// (Gate.Fail). With log == false the call is not recorded in the effect log.
+func (w *World) eventF(e Event, log bool) bool {
 	w.mu.Lock()
 	if !w.record {
 		w.mu.Unlock()
-		return
+		return false
 	}
 	e.Tag = w.tag
-	w.log = append(w.log, e)
+	if log {
+		w.log = append(w.log, e)
+	}
 	var g *Gate
 	for i, c := range w.gates {
 		if c.kind == e.Kind && (c.leaf == -1 || c.leaf == e.Leaf) && (c.tag == -1 || c.tag == e.Tag) {
@@ -296,7 +313,9 @@ func (w *World) event(e Event) {
 	if g != nil {
 		close(g.entered)
 		<-g.release
+		return g.fail.Load()
 	}
+	return false
 }
 
 // ---------------------------------------------------------------------------
@@ -338,13 +357,26 @@ func (l *ILeaf) VirtualClose(share virtual.ShareMask) {
 }
 
 func (l *ILeaf) VirtualRead(ctx context.Context, buf []byte, off uint64) (int, bool, virtual.Status) {
-	l.w.event(Event{Kind: "read", Leaf: l.ID, Off: off, Len: len(buf)})
+	if l.w.eventF(Event{Kind: "read", Leaf: l.ID, Off: off, Len: len(buf)}, true) {
+		return 0, false, virtual.StatusErrIO
+	}
 	return l.LinkableLeaf.VirtualRead(ctx, buf, off)
 }
 
 func (l *ILeaf) VirtualWrite(ctx context.Context, buf []byte, off uint64) (int, virtual.Status) {
-	l.w.event(Event{Kind: "write", Leaf: l.ID, Off: off, Len: len(buf)})
+	if l.w.eventF(Event{Kind: "write", Leaf: l.ID, Off: off, Len: len(buf)}, true) {
+		return 0, virtual.StatusErrIO
+	}
 	return l.LinkableLeaf.VirtualWrite(ctx, buf, off)
+}
+
+// VirtualSetAttributes is not recorded in the effect log; a gate of kind
+// "setattr" can park it or make it fail.
+func (l *ILeaf) VirtualSetAttributes(ctx context.Context, in *virtual.Attributes, requested virtual.AttributesMask, out *virtual.Attributes) virtual.Status {
+	if l.w.eventF(Event{Kind: "setattr", Leaf: l.ID}, false) {
+		return virtual.StatusErrIO
+	}
+	return l.LinkableLeaf.VirtualSetAttributes(ctx, in, requested, out)
 }
 
 // IDir wraps a directory resolved from a file handle.
